@@ -337,6 +337,9 @@ def load_known():
 
 
 def violation_sig(v):
+    w = v.get("witness")
+    if isinstance(w, dict) and w.get("_sig"):
+        return w["_sig"]
     return v.get("sig") or (v.get("key", "") + ":" + v.get("what", ""))
 
 
